@@ -143,6 +143,13 @@ Fixpoint mkdir_all_go (i : nat) (ps : list (list seg)) (d : disk) : option disk 
   end.
 Definition mkdir_all (i : nat) (sg : list seg) (d : disk) : option disk := mkdir_all_go i (all_prefixes sg) d.
 
+(* the first n bytes, n a (possibly huge) Z: io.LimitReader *)
+Fixpoint take_z (n : Z) (l : str) : str :=
+  match l with
+  | [] => []
+  | x :: r => if n <=? 0 then [] else x :: take_z (n - 1) r
+  end.
+
 (* os.OpenFile(O_CREATE|O_RDWR) without O_TRUNC, then write from offset 0 *)
 Definition write_file (i : nat) (sg : list seg) (c : str) (d : disk) : option disk :=
   match mkdir_all i (init_segs sg) d with
@@ -289,7 +296,7 @@ Definition process_entry (cfg : config) (i : nat) (st : state) (e : entry) : ste
                                  fn_mode := Z.lor (e_mode e) mode_dir; fn_size := 0 |} d1
           end
       | KReg =>
-          match write_file i sg (firstn (Z.to_nat (cfg_max_bytes cfg)) (e_content e)) (st_disk st) with
+          match write_file i sg (take_z (cfg_max_bytes cfg) (e_content e)) (st_disk st) with
           | None => Fatal
           | Some d1 =>
               if Z.of_nat (length (e_content e)) >=? cfg_max_bytes cfg
@@ -398,24 +405,77 @@ Definition prune_remove (acc : ftrie * disk) (kv : str * bool) : ftrie * disk :=
                 end)
        end.
 
-Definition prune (cfg : config) (st : state) : state :=
+(* Walk visits the nodes in Go map order; `order` is that order (the model's own walk order in
+   `prune`).  The early return in prune_visit makes the marking depend on it -- see below. *)
+Definition prune_with (cfg : config) (order : ftrie -> list (list seg * fnode)) (st : state) : state :=
   match rev (st_chains st) with
   | [] => st
   | fin :: rest =>
-      let m := fold_left (prune_visit cfg fin) (walk fin) [] in
+      let m := fold_left (prune_visit cfg fin) (order fin) [] in
       let (fin', d') := fold_left prune_remove m (fin, st_disk st) in
       {| st_chains := rev (fin' :: rest); st_disk := d' |}
+  end.
+
+Definition prune (cfg : config) (st : state) : state := prune_with cfg walk st.
+
+(* Order sensitivity of the marking.  A required link that some other link has already marked is
+   not expanded (`if filesRequired[virtualPath] { return nil }`), so which targets end up marked
+   depends on the visiting order.  Two order-independent bounds:
+     upper: every required link is expanded;
+     lower: only the required links that nobody marks are expanded (those are expanded in every order).
+   Every real run marks a set between the two; if both give the same set of removed paths, the
+   result does not depend on the order. *)
+Definition visit_upper (cfg : config) (t : ftrie) (m : reqmap) (x : list seg * fnode) : reqmap :=
+  let (p, n) := x in
+  let key := walk_path_string p in
+  if fn_is_dir n then m
+  else if negb (node_required cfg n) then (if rq_get m key then m else rq_set m key false)
+  else match fn_target n with
+       | [] => m
+       | _ => mark_targets t (Z.to_nat (cfg_depth cfg)) n m
+       end.
+
+Definition visit_lower (cfg : config) (t : ftrie) (up : reqmap) (m : reqmap) (x : list seg * fnode) : reqmap :=
+  let (p, n) := x in
+  let key := walk_path_string p in
+  if fn_is_dir n then m
+  else if negb (node_required cfg n) then (if rq_get m key then m else rq_set m key false)
+  else match fn_target n with
+       | [] => m
+       | _ => if rq_get up key then m else mark_targets t (Z.to_nat (cfg_depth cfg)) n m
+       end.
+
+Definition removed_keys (m : reqmap) : list str := map fst (filter (fun kv => negb (snd kv)) m).
+Definition subset_str (a b : list str) : bool := forallb (fun x => existsb (str_eqb x) b) a.
+
+Definition prune_order_sensitive (cfg : config) (st : state) : bool :=
+  match rev (st_chains st) with
+  | [] => false
+  | fin :: _ =>
+      let up := fold_left (visit_upper cfg fin) (walk fin) [] in
+      let lo := fold_left (visit_lower cfg fin up) (walk fin) [] in
+      negb (subset_str (removed_keys up) (removed_keys lo) && subset_str (removed_keys lo) (removed_keys up))
   end.
 
 (* ------------------------------------------------------------------ FromV1Image *)
 Definition config_valid (cfg : config) : bool := (0 <? cfg_max_bytes cfg) && (0 <=? cfg_depth cfg).
 
-Definition load (cfg : config) (im : image) : option state :=
+Definition load_unpruned (cfg : config) (im : image) : option state :=
   if negb (config_valid cfg) then None else
   let slots := init_slots im in
-  match fill_layers cfg (rev (index_from 0%nat slots)) (init_state (length slots)) with
+  fill_layers cfg (rev (index_from 0%nat slots)) (init_state (length slots)).
+
+Definition load (cfg : config) (im : image) : option state :=
+  match load_unpruned cfg im with
   | None => None
   | Some st => Some (prune cfg st)
+  end.
+
+(* does the outcome of FromV1Image depend on Go's map iteration order? *)
+Definition load_order_sensitive (cfg : config) (im : image) : bool :=
+  match load_unpruned cfg im with
+  | None => false
+  | Some st => prune_order_sensitive cfg st
   end.
 
 (* ------------------------------------------------------------------ reads (layer.go, file_node.go) *)
